@@ -26,6 +26,7 @@ EXPLANATION = (
     "R5: the closer returns at once when CLOSED, otherwise sets CLOSED on every path before any call that can re-enter "
     "the package. Under M1-M5 these clauses are the safety statement of the property."
     " R6: disconnect(), force_disconnect() and report_fatal_error() reach the closer on every normal path, and a transport write error reaches send_messages' reporting handler as a class it catches."
+    ' The set of visible states is exactly the five of the statement.'
 )
 ASSUMPTIONS = [
     "M1-M5 of DESIGN.md section 2 (run-to-completion between suspension points; completion != resumption; eager tasks; registered callbacks are entry points)",
